@@ -182,6 +182,12 @@ pub fn check(ctx: &mut Ctx) {
             mal.push(TimeCase { now: past_now, to_attr: format!("to=\"{to}\""), offset: off.to_string(), expect_ready: false, why: "malformed offset".into() });
         }
     }
+    // both malformed at once (a `to` that carries its own zone must not rescue an unparseable offset, and so on)
+    for to in MALFORMED_TO {
+        for off in MALFORMED_OFFSET {
+            mal.push(TimeCase { now: past_now, to_attr: format!("to=\"{to}\""), offset: off.to_string(), expect_ready: false, why: "malformed to and malformed offset".into() });
+        }
+    }
     // sanity of the probe itself: the same well-formed values are ready with a valid offset
     mal.push(TimeCase { now: past_now, to_attr: "to=\"2000-01-01 00:00:00\"".into(), offset: "+00:00".into(), expect_ready: true, why: "control: well-formed past date".into() });
     let n_mal = mal.len();
